@@ -180,6 +180,22 @@ impl AutosarModel {
             root_element.0.write().file_membership.insert(arxml_file.downgrade());
             self.0.write().root_element = root_element;
         } else {
+            // reject the new data before anything is merged if one of its paths is already used by a different kind of element
+            {
+                let data = self.0.read();
+                for (key, value) in &parser.identifiables {
+                    if let (Some(existing_element), Some(new_element)) =
+                        (data.identifiables.get(key).and_then(WeakElement::upgrade), value.upgrade())
+                    {
+                        if existing_element.element_name() != new_element.element_name() {
+                            return Err(AutosarDataError::OverlappingDataError {
+                                filename,
+                                path: new_element.xml_path(),
+                            });
+                        }
+                    }
+                }
+            }
             let result = self.merge_file_data(&root_element, arxml_file.downgrade());
             if let Err(error) = result {
                 let _ = self.root_element().remove_from_file(&arxml_file);
